@@ -146,9 +146,9 @@ def main():
       '   per property (every later round was told what the earlier ones had produced and asked for something\n'
       '   different: another mechanism, code site or trigger): rounds 1 and 2 for all 20 properties, round 3 for the 14\n'
       '   behavioural properties of the priority / join / limit disciplines, round 4 for the rest (C04 C10 C13 C14 C18\n'
-      '   C20), round 5 for the 12 properties with the most misses so far: %d changes. **Caught by the owning check at\n'
-      '   the first try: round 1: 32 of 40; round 2: 28 of 40; round 3: 19 of 28; round 4: 10 of 12; round 5: 17 of\n'
-      '   24.** Each miss showed a real weakness - a workload that was too\n'
+      '   C20), round 5 for the 12 properties with the most misses so far, round 6 for the other 8: %d changes. **Caught\n'
+      '   by the owning check at the first try: round 1: 32 of 40; round 2: 28 of 40; round 3: 19 of 28; round 4: 10 of\n'
+      '   12; round 5: 17 of 24; round 6: 13 of 16.** Each miss showed a real weakness - a workload that was too\n'
       '   narrow (unusual configurations above all), an oracle that was sound but too weak, an observation taken too\n'
       '   late, or instrumentation that synchronised what it was supposed to watch - and was closed by strengthening\n'
       '   the monitor, never by special-casing the change. After that all are caught by the owning check (the table is\n'
@@ -193,8 +193,11 @@ def main():
       '   C08-7 -> Stop() from another goroutine while the consumer keeps reading; C16-7 -> Stop / cancel right after\n'
       '   the constructor, without waiting for quiescence; C17-8 -> removal of the last registered input, and\n'
       '   non-termination after control calls reported under C17; C19-8 -> census right at the completion of a stop and\n'
-      '   a Handle that needs 3us to return (this also closed the old exception C19-3). `meta.json` of each change\n'
-      '   records what was run and seen.\n')
+      '   a Handle that needs 3us to return (this also closed the old exception C19-3). Round 6: C11-7 -> input slices\n'
+      '   that are windows of one shared array, a search-based C11 oracle, and a check that no input slice is ever\n'
+      '   written to; C11-8 -> a crash inside unite.Release() stays with the running join property instead of being\n'
+      '   attributed to C07; C14-7 -> priority 0 in the divider lists. `meta.json` of each change records what was run\n'
+      '   and seen.\n')
     if seeded:
         bad = [(n, c, v) for n, l in seeded.items() for c, v in l if v != 'CAUGHT']
         w('   Re-run of all of them after the last strengthening (`tools/mutant_matrix.sh`, quick tier): %d (change, check)\n'
